@@ -97,7 +97,7 @@ def judge(res, v, clauses, algos_note=''):
     return nbad
 
 
-def run_exact(res, tier, seed, replay, clauses, algos='signed,fvs,iso', types='double,int', tol=0, inputs=None):
+def run_exact(res, tier, seed, replay, clauses, algos='signed,fvs,iso', types='double,int', tol=0, inputs=None, layouts=1):
     wd = vlib.scratch(res.pid)
     try:
         if replay:
@@ -114,7 +114,17 @@ def run_exact(res, tier, seed, replay, clauses, algos='signed,fvs,iso', types='d
             inputs = exact_inputs(res, tier, seed, wd)
         lines = to_lines(inputs)
         trace = vlib.parallel_record(exe, lines, wd, 'mcb', extra=['--algos', algos, '--types', types, '--tol', str(tol)])
+        if layouts > 1 and not replay:
+            # memory layout as an input: the signed variant iterates std::set<edge_descriptor>, i.e. in address order of the
+            # edge nodes; run it again with the nodes placed in reversed and in seeded random address orders (arena.hpp)
+            sub = [ln for ln, (g, den) in zip(lines, inputs) if 6 <= len(g['edges']) <= 24][:(900 if tier == 'quick' else 12000)]
+            tr2 = vlib.parallel_record(exe, sub, wd, 'mcb_layout', extra=['--algos', 'signed', '--types', 'double', '--tol', str(tol), '--layouts', str(layouts)])
+            with open(trace, 'a') as f:
+                f.write(open(tr2).read())
+            res.cov['layout_runs'] = vlib.count_events(tr2).get('Call', 0)
         ev = vlib.count_events(trace)
+        if ev.get('LayoutError', 0):
+            raise vlib.HarnessError('%d LayoutError events: the arena did not realise the requested edge order' % ev['LayoutError'])
         res.cov['event_counts'] = ev
         v = vlib.validate_trace('Trace_Mcb', 'Trace_Mcb.cfg', trace)
         ncalls = ev.get('Call', 0)
@@ -155,7 +165,7 @@ def check_C01(res, tier, seed, replay):
                         'weights are small integers or dyadic rationals, sums < 2^31 (exact in double and int)']
     if not replay:
         model_checks(res, tier)
-    run_exact(res, tier, seed, replay, CLAUSES['C01'])
+    run_exact(res, tier, seed, replay, CLAUSES['C01'], layouts=2)
 
 
 def check_C02(res, tier, seed, replay):
@@ -163,7 +173,7 @@ def check_C02(res, tier, seed, replay):
                         'weights are small integers or dyadic rationals, sums < 2^31 (exact in double and int)']
     if not replay:
         model_checks(res, tier)
-    run_exact(res, tier, seed, replay, CLAUSES['C02'])
+    run_exact(res, tier, seed, replay, CLAUSES['C02'], layouts=3)
 
 
 REGISTRY = {'C01': check_C01, 'C02': check_C02}
